@@ -6,7 +6,7 @@ import z3
 import os
 from .structs import load_structs, VARIANTS as ENUM_VARIANTS
 REPO = os.environ.get('VERIF_REPO', '/repo')
-STRUCTS, ENUMS = load_structs([REPO + '/programs/marginfi/src', REPO + '/type-crate/src', REPO + '/programs/kamino-mocks/src', REPO + '/programs/drift-mocks/src', REPO + '/programs/solend-mocks/src'])
+STRUCTS, ENUMS = load_structs([REPO + '/programs/marginfi/src', REPO + '/type-crate/src', REPO + '/programs/kamino-mocks/src', REPO + '/programs/drift-mocks/src', REPO + '/programs/solend-mocks/src'] + sorted(__import__('glob').glob('/verif/.cache/vendor/pyth-solana-receiver-sdk-*/src')) + sorted(__import__('glob').glob('/verif/.cache/vendor/pythnet-sdk-*/src')))
 
 I80 = 'I80F48'
 TYPE_SHORT = [
@@ -304,6 +304,26 @@ def z3_deepcopy_patch():
     Fn.__deepcopy__ = lambda self, memo: self
 z3_deepcopy_patch()
 
+_FOREIGN = {}
+def foreign_const(path):
+    """integer literal const of a dependency crate, read from its vendored source (e.g. switchboard_on_demand::PRECISION)"""
+    if path in _FOREIGN: return _FOREIGN[path]
+    val = None
+    segs = path.split('::')
+    if len(segs) >= 2 and re.fullmatch(r'[a-z_0-9]+', segs[0]) and re.fullmatch(r'[A-Z_0-9]+', segs[-1]):
+        import glob
+        hits = set()
+        for d in glob.glob('/verif/.cache/vendor/%s-[0-9]*' % segs[0].replace('_', '-')):
+            for fp in glob.glob(d + '/src/**/*.rs', recursive=True):
+                for m in re.finditer(r'pub const %s: (u8|u16|u32|u64|usize|i8|i16|i32|i64|isize|u128|i128) = (-?[0-9_]+);' % segs[-1], open(fp, errors='replace').read()):
+                    hits.add((m.group(1), int(m.group(2).replace('_', ''))))
+        if len(hits) == 1:
+            ty, n = hits.pop(); val = IntV(z3.IntVal(n), ty)
+    _FOREIGN[path] = val
+    return val
+
+
+
 class Engine:
     def __init__(self, mir, extra_mirs=(), opaque_patterns=(), max_paths=5000):
         self.mir = mir
@@ -485,6 +505,11 @@ class Engine:
                     v = v[step[1]]
                 else:
                     raise Exception(f'field {step} of {v}')
+            elif step[0] == 'v' and isinstance(v, StructV) and v.lazy:
+                # enum of a dependency crate whose definition is not scanned: symbolic tag, lazily created variant payloads
+                k = '__v_' + str(step[1])
+                if k not in v.fields: v.fields[k] = StructV(f'{v.ty}::{step[1]}', f'{v.name}.{step[1]}', {}, lazy=True)
+                v = v.fields[k]
             elif step[0] == 'v':
                 idx = variant_index(getattr(v, 'ty', ''), step[1])
                 v = v.payload.setdefault(idx, {})
@@ -561,6 +586,8 @@ class Engine:
             en, var = s.rsplit('::', 1); en = en.split('::')[-1]
             if en in ENUMS and var in ENUMS[en]:
                 return EnumV(en, ENUMS[en][var], {})
+            if en in ENUM_VARIANTS and var in ENUM_VARIANTS[en] and en not in ('Option', 'Result'):
+                return EnumV(en, ENUM_VARIANTS[en].index(var), {})
         # named const item
         name = s
         for mir in self.mirs:
@@ -579,6 +606,8 @@ class Engine:
                         if im: mir.assoc_consts.setdefault((impl_info(im.group(1))[1], im.group(2)), cf)
                 cf = mir.assoc_consts.get((owner, last))
                 if cf is not None: return self.eval_const(cf)
+        fc = foreign_const(name)
+        if fc is not None: return fc
         return Opaque(tyhint or '?', 'const ' + s)
 
     def eval_const(self, f):
@@ -604,6 +633,8 @@ class Engine:
         if s.startswith('move '): return self.read(st, self.parse_place(s[5:]))
         if s.startswith('no_retag copy '): return self.read(st, self.parse_place(s[14:]))
         if s.startswith('const '): return self.const_val(st, s[6:])
+        if re.match(r'^<?[A-Za-z_][\w:<>&\' ,\[\]\(\)]*$', s) and '::' in s:
+            return Opaque('fn', 'fn item ' + s)     # a function item passed by value (e.g. .map(ToAccountInfo::to_account_info))
         raise Exception('operand? ' + s)
 
     def wrap_int(self, e, ty):
@@ -730,6 +761,10 @@ class Engine:
             if isinstance(v, EnumV):
                 return IntV(v.disc if not isinstance(v.disc, int) else z3.IntVal(v.disc), 'isize')
             if isinstance(v, IntV): return IntV(v.e, 'isize')   # C-like enum as int
+            if isinstance(v, StructV) and v.lazy:
+                if '__tag' not in v.fields:
+                    t = z3.Int(v.name + '.tag'); self.ex.assumptions.append(z3.And(t >= 0, t < 256)); v.fields['__tag'] = IntV(t, 'isize')
+                return v.fields['__tag']
             raise Exception(f'discriminant of {v}')
         m = re.match(r'^(\w+)\((.*)\)$', rhs)
         if m and m.group(1) in ('Add', 'Sub', 'Mul', 'Div', 'Rem', 'Eq', 'Ne', 'Lt', 'Le', 'Gt', 'Ge', 'BitAnd', 'BitOr', 'BitXor', 'Shl', 'Shr',
@@ -800,6 +835,8 @@ class Engine:
             en = en.split('::')[-1]
             if en in ENUMS and var in ENUMS[en]:
                 return EnumV(en, ENUMS[en][var], {})
+            if en in ENUM_VARIANTS and var in ENUM_VARIANTS[en] and en not in ('Option', 'Result'):
+                return EnumV(en, ENUM_VARIANTS[en].index(var), {})
             return Opaque(dest_ty or '?', rhs)
         m = re.match(r'^([\w:<>\', &]+)\((.*)\)$', rhs)
         if m:
@@ -1062,6 +1099,9 @@ class Engine:
                 if i not in arr.fields:
                     arr.fields[i] = self.ex.fresh(it.fields['__elemty'], f'{arr.name}[{i}]')
                 return EnumV('Option', 1, {1: {0: arr.fields[i]}})
+        bm_ = re.match(r'^Box::<(.*)>::new$', c)
+        if bm_ and len(args) == 1 and not bm_.group(1).startswith('dyn ') and 'anchor_lang' not in bm_.group(1):
+            return StructV('Box<%s>' % bm_.group(1), self.ex.fresh_name('box'), {'__pointee': Cell(args[0])}, lazy=True)
         if re.match(r'^<Box<(.*)> as (AsRef<.*>|Deref|DerefMut|AsMut<.*>|Borrow<.*>)>::(as_ref|deref|deref_mut|as_mut|borrow)$', c):
             b = self.deref_val(args[0])
             if isinstance(b, StructV):
@@ -1262,6 +1302,17 @@ class Engine:
                         return f
                     alts.append((ln == k + 1, mk(k)))
                 return ForkResult(alts)
+        mm_ = re.match(r'^core::slice::<impl \[.*\]>::(is_empty|len)$', c)
+        if mm_:
+            lv = self.deref_val(args[0])
+            if isinstance(lv, StructV):
+                am = re.match(r'^\[(.*); (\d+)\]$', lv.ty.strip())
+                if am: ln = z3.IntVal(int(am.group(2)))
+                else:
+                    if '__len' not in lv.fields:
+                        ln_ = z3.Int(lv.name + '.len'); self.ex.assumptions.append(z3.And(ln_ >= 0, ln_ <= 2**32)); lv.fields['__len'] = IntV(ln_, 'usize')
+                    ln = lv.fields['__len'].e
+                return BoolV(ln == 0) if mm_.group(1) == 'is_empty' else IntV(ln, 'usize')
         if re.match(r'^Vec::<u8>::len$', c):
             v = self.deref_val(args[0])
             if '__len' not in v.fields:
@@ -1273,6 +1324,7 @@ class Engine:
             return RefV(Cell(v.fields['__d8']))
         if re.match(r'^<&\[u8\] as PartialEq>::(eq|ne)$', c) or re.match(r'^<\[u8\] as PartialEq>::(eq|ne)$', c):
             a = self.deref_val(args[0]); b = self.deref_val(args[1])
+            if not (hasattr(a, 'e') and hasattr(b, 'e')): return None
             return BoolV(a.e == b.e if c.endswith('eq') else a.e != b.e)
         if re.match(r'^core::slice::<impl \[\(anchor_lang::prelude::Pubkey, &\[u8\]\)\]>::contains$', c):
             lv = self.deref_val(args[0]); t = self.deref_val(args[1]); ln = lv.fields['__len'].e
@@ -1341,7 +1393,8 @@ class Engine:
                 return o.payload[1][0] if o.disc == 1 else args[1]
             sv = o.payload[1][0]
             if isinstance(sv, BoolV): return BoolV(z3.If(o.disc == 1, sv.e, args[1].e))
-            return IntV(z3.If(o.disc == 1, sv.e, args[1].e), sv.ty)
+            if isinstance(sv, IntV) and isinstance(args[1], IntV): return IntV(z3.If(o.disc == 1, sv.e, args[1].e), sv.ty)
+            return ForkResult([(zint_(o.disc) == 1, lambda st_, a_: a_[0].payload[1][0]), (zint_(o.disc) == 0, lambda st_, a_: a_[1])])
         return None
 
     def closure_fn(self, generic, st=None, ret_ty=None):
@@ -1494,7 +1547,10 @@ class Engine:
                 T['live'] = 0
                 work.extend(newstates)
         while work:
-            if len(out) + len(work) > self.max_paths: raise Exception('too many paths')
+            if len(out) + len(work) > self.max_paths:
+                from collections import Counter
+                where = Counter(f"{x.frames[-1]['fn'].name[-60:]}:bb{x.frames[-1]['bb']}" for x in work if x.frames)
+                raise Exception('too many paths; pending states at ' + str(where.most_common(6)) + ' finished: ' + str(Counter(o['status'][:40] for o in out).most_common(4)))
             st = work.pop()
             try:
                 forks = self.step_until_fork(st)
